@@ -216,3 +216,21 @@ Fixpoint combs {A} (pool : list A) (r : nat) : list (list A) :=
       | e :: rest => map (cons e) (combs rest r') ++ combs rest r
       end
   end.
+
+(* range(lo, lo + cnt) *)
+Fixpoint zrange (lo : Z) (cnt : nat) : list Z :=
+  match cnt with O => [] | S c => lo :: zrange (lo + 1) c end.
+
+(* itertools.combinations_with_replacement(pool, r): index tuples in lexicographic order.
+   Also the specification list for with_replacement_rank / with_replacement_unrank. *)
+Fixpoint cwr_list {A} (r : nat) (pool : list A) : list (list A) :=
+  match r with
+  | O => [[]]
+  | S r' =>
+      (fix aux (p : list A) : list (list A) :=
+         match p with
+         | [] => []
+         | e :: rest => map (cons e) (cwr_list r' p) ++ aux rest
+         end) pool
+  end.
+
